@@ -290,6 +290,12 @@ func buildOperation(key string, r *expr.RouteExpr, bodies *EndpointBodies, rand 
 	// responses
 	var responses map[string]*ResponseRef
 	{
+		// The bodies are shared by all the routes of the endpoint, work on a
+		// copy so that the next route finds them unchanged.
+		responseBodies := make(map[int][]*openapi.Schema, len(bodies.ResponseBodies))
+		for code, b := range bodies.ResponseBodies {
+			responseBodies[code] = b
+		}
 		responses = make(map[string]*ResponseRef, len(e.Responses))
 		for _, r := range e.Responses {
 			if e.MethodExpr.IsStreaming() {
@@ -297,21 +303,21 @@ func buildOperation(key string, r *expr.RouteExpr, bodies *EndpointBodies, rand 
 				// definition. So it is okay to change the first successful
 				// response to a HTTP 101 response for openapi docs.
 				if _, ok := responses[strconv.Itoa(expr.StatusSwitchingProtocols)]; !ok {
-					b := bodies.ResponseBodies[r.StatusCode]
-					delete(bodies.ResponseBodies, r.StatusCode)
+					b := responseBodies[r.StatusCode]
+					delete(responseBodies, r.StatusCode)
 					r = r.Dup()
 					r.StatusCode = expr.StatusSwitchingProtocols
-					bodies.ResponseBodies[r.StatusCode] = b
+					responseBodies[r.StatusCode] = b
 				}
 			}
-			resp := responseFromExpr(r, bodies.ResponseBodies, rand)
+			resp := responseFromExpr(r, responseBodies, rand)
 			responses[strconv.Itoa(r.StatusCode)] = &ResponseRef{Value: resp}
 		}
 		for _, er := range e.HTTPErrors {
 			if er.Description != "" && er.Response.Description == "" {
 				er.Response.Description = er.Description
 			}
-			resp := responseFromExpr(er.Response, bodies.ResponseBodies, rand)
+			resp := responseFromExpr(er.Response, responseBodies, rand)
 			desc := er.Name
 			if resp.Description != nil {
 				desc += ": " + *resp.Description
